@@ -63,8 +63,16 @@ func NewUnpackInfo(dst string, header *tar.Header) (UnpackInfo, error) {
 	// immediate parent directory of the file name in the tarball, checking
 	// the mode on each to ensure we wouldn't be passing through any
 	// symlinks.
-	currentPath := dst // Start at the root of the unpacked tarball.
-	components := strings.Split(header.Name, "/")
+	//
+	// The components are those of the cleaned path below dst, not of the raw
+	// entry name: a name such as "missing/../link/file" would otherwise end
+	// the walk at its first (non-existent) component and never look at "link".
+	currentPath := cleanDst // Start at the root of the unpacked tarball.
+	relTarget, err := filepath.Rel(cleanDst, target)
+	if err != nil {
+		return UnpackInfo{}, fmt.Errorf("failed to evaluate path %q: %w", header.Name, err)
+	}
+	components := strings.Split(filepath.ToSlash(relTarget), "/")
 
 	for i := 0; i < len(components)-1; i++ {
 		currentPath = filepath.Join(currentPath, components[i])
